@@ -338,6 +338,7 @@ def c06(tier):
     P = core.load(tier=tier, extra_units=selftest.UNITS)
     fs.run(P, C)
     fs.fs6(P, C)
+    fs.fs7(P, C)
     ax.fs4(P, C)
     C.extra["units"] = sorted(P.units.keys())
     return C.finish()
